@@ -51,7 +51,7 @@ func main() {
 	}
 	selfTest(r)
 	if os.Getenv("C02_SKIP_A") == "" {
-		layerA(r, r.N(20, 1200), r.N(120, 400), r.N(48, 100))
+		layerA(r, r.N(16, 1200), r.N(100, 400), r.N(44, 100))
 	}
 	if os.Getenv("C02_SKIP_B") == "" {
 		layerB(r, r.N(120, 6000))
